@@ -900,13 +900,87 @@ func expectedLabels(in []kv, ch []c08Dirs, which int) []kv {
 	}
 	for _, d := range ch {
 		for _, e := range d.Labels {
-			if which == 0 || e.IncludeSelectors || e.IncludeTemplates {
+			if which == 0 || e.IncludeSelectors || (which == 1 && e.IncludeTemplates) {
 				apply(e.Pairs)
 			}
 		}
 		apply(d.CommonLabels)
 	}
 	return cur
+}
+
+// keySetTwice: two directives of the chain set the key to different values.
+func keySetTwice(ch []c08Dirs, key string) bool {
+	vals := []string{}
+	add := func(l []kv) {
+		if v, ok := lookupKV(l, key); ok {
+			vals = append(vals, v)
+		}
+	}
+	for _, d := range ch {
+		for _, e := range d.Labels {
+			add(e.Pairs)
+		}
+		add(d.CommonLabels)
+	}
+	for i := 1; i < len(vals); i++ {
+		if vals[i] != vals[0] {
+			return true
+		}
+	}
+	return false
+}
+
+func firstDiffKey(want, got []kv) string {
+	for _, e := range want {
+		if v, ok := lookupKV(got, e.K); !ok || v != e.V {
+			return e.K
+		}
+	}
+	for _, e := range got {
+		if _, ok := lookupKV(want, e.K); !ok {
+			return e.K
+		}
+	}
+	return ""
+}
+
+func isMapAt(n *kyaml.Node, path []string) bool {
+	x := getAt(n, path)
+	return x != nil && x.Kind == kyaml.MappingNode
+}
+
+// selCreates: the default selector row of the kind has create=true.
+func selCreates(kind string) bool {
+	switch kind {
+	case "Service", "ReplicationController", "Deployment", "ReplicaSet", "DaemonSet", "StatefulSet":
+		return true
+	}
+	return false
+}
+
+// selCovered: the default tables have a selector row matching this object's apiVersion.
+func selCovered(n *kyaml.Node) bool {
+	av := ""
+	if a := getAt(n, []string{"apiVersion"}); a != nil {
+		av = a.Value
+	}
+	g, v := resid.ParseGroupVersion(av)
+	switch kindOfNode(n) {
+	case "Deployment", "ReplicaSet", "DaemonSet":
+		return true
+	case "StatefulSet":
+		return g == "apps"
+	case "Job", "CronJob":
+		return g == "batch"
+	case "ReplicationController", "Service":
+		return v == "v1"
+	case "NetworkPolicy":
+		return g == "networking.k8s.io"
+	case "PodDisruptionBudget":
+		return g == "policy"
+	}
+	return false
 }
 
 func kvEq(a, b []kv) bool {
@@ -978,8 +1052,10 @@ func oracles08(r *Run, t *c08Tree, flat []flatRes, bo buildOut) {
 		ios = append(ios, io{fr, in.YNode(), out.YNode()})
 	}
 	classify := func(law string, fr flatRes, key string, selIn []kv) string {
-		if chainHasFields(fr.Chain) {
-			return "C08/" + law + "/custom-fields-in-chain"
+		if keySetTwice(fr.Chain, key) {
+			// the key is set by two directives of the chain with different values: the entries the first one
+			// created share one yaml.Node, the second one overwrites all of them
+			return "C08/" + law + "/shared-node-overwrite"
 		}
 		if _, had := lookupKV(selIn, key); had && nonSelectorKeys(fr.Chain)[key] {
 			return "C08/" + law + "/selected-key-overridden-without-includeSelectors"
@@ -992,7 +1068,7 @@ func oracles08(r *Run, t *c08Tree, flat []flatRes, bo buildOut) {
 		if tp, isW := tmplPaths[kind]; isW && kind != "Pod" {
 			selIn, podIn := selOf(x.in), podLabelsOf(x.in)
 			okIn, _ := subKV(selIn, podIn)
-			if okIn && shapeOK(x.in, strings.Split(tp, "/")) {
+			if okIn && shapeOK(x.in, strings.Split(tp, "/")) && !chainHasFields(x.fr.Chain) {
 				r.Count("oracle", "own_selector")
 				if ok, key := subKV(selOf(x.out), podLabelsOf(x.out)); !ok {
 					report("own_selector", classify("own_selector", x.fr, key, selIn),
@@ -1008,6 +1084,19 @@ func oracles08(r *Run, t *c08Tree, flat []flatRes, bo buildOut) {
 					fmt.Sprintf("%s %s: selector changed from %v to %v without includeSelectors", kind, x.fr.Res.Name, selOf(x.in), selOf(x.out)))
 			}
 		}
+		// (3b) the selector receives exactly the labels of the directives that include selectors
+		if sp, hasSel := selPaths[kind]; hasSel && !chainHasFields(x.fr.Chain) && selCovered(x.in) && shapeOK(x.in, strings.Split(sp, "/")) {
+			r.Count("oracle", "selector_union")
+			selIn := selOf(x.in)
+			want := selIn
+			if selCreates(kind) || isMapAt(x.in, strings.Split(sp, "/")) {
+				want = expectedLabels(selIn, x.fr.Chain, 2)
+			}
+			if got := selOf(x.out); !kvEq(want, got) {
+				report("no_selector_change", classify("selector_union", x.fr, firstDiffKey(want, got), nil),
+					fmt.Sprintf("%s %s: selector %v, expected %v (labels without includeSelectors must not reach it)", kind, x.fr.Res.Name, got, want))
+			}
+		}
 		// (4) exact locations: metadata labels = input overridden by the chain; pod template likewise;
 		// nothing outside label/annotation/selector locations changes
 		if !chainHasFields(x.fr.Chain) {
@@ -1016,7 +1105,7 @@ func oracles08(r *Run, t *c08Tree, flat []flatRes, bo buildOut) {
 				want := expectedLabels(lmapOf(getAt(x.in, []string{"metadata", "labels"})), x.fr.Chain, 0)
 				got := lmapOf(getAt(x.out, []string{"metadata", "labels"}))
 				if !kvEq(want, got) {
-					report("exact_locations", "C08/metadata_union",
+					report("exact_locations", classify("metadata_union", x.fr, firstDiffKey(want, got), nil),
 						fmt.Sprintf("%s %s: metadata.labels %v, expected %v", kind, x.fr.Res.Name, got, want))
 				}
 			}
@@ -1025,7 +1114,7 @@ func oracles08(r *Run, t *c08Tree, flat []flatRes, bo buildOut) {
 				want := expectedLabels(podLabelsOf(x.in), x.fr.Chain, 1)
 				got := podLabelsOf(x.out)
 				if !kvEq(want, got) {
-					report("exact_locations", "C08/template_union",
+					report("exact_locations", classify("template_union", x.fr, firstDiffKey(want, got), nil),
 						fmt.Sprintf("%s %s: pod template labels %v, expected %v", kind, x.fr.Res.Name, got, want))
 				}
 			}
@@ -1033,7 +1122,8 @@ func oracles08(r *Run, t *c08Tree, flat []flatRes, bo buildOut) {
 			leaves(x.in, "", li)
 			leaves(x.out, "", lo)
 			for p, v := range li {
-				if labelish(p) {
+				if labelish(p) || strings.HasPrefix(v, "!!null") {
+					// a null on the way to a label location is turned into a mapping when the field spec creates
 					continue
 				}
 				if w, ok := lo[p]; !ok || w != v {
@@ -1070,7 +1160,7 @@ func oracles08(r *Run, t *c08Tree, flat []flatRes, bo buildOut) {
 			if ok, _ := subKV(selIn, podLabelsOf(w.in)); !ok {
 				continue
 			}
-			if !shapeOK(w.in, strings.Split(tp, "/")) || !tmplCovered(w.in) {
+			if !shapeOK(w.in, strings.Split(tp, "/")) || !tmplCovered(w.in) || chainHasFields(s.fr.Chain) {
 				continue
 			}
 			r.Count("oracle", "selects_preserved")
@@ -1278,6 +1368,7 @@ func runBuildCase(r *Run, t *c08Tree, toModel bool) {
 		}
 	}
 	oracles08(r, t, flat, bo)
+	oracleFields08(r, t, flat, bo)
 	if bo.cls != ClsOk {
 		// Domain restriction: errors / panics of other build stages (name references, hashing, ...) are
 		// outside the model. The tree is sent to the model only if the same tree without any label or
@@ -1319,6 +1410,86 @@ func runBuildCase(r *Run, t *c08Tree, toModel bool) {
 	nontrivial := bo.cls == ClsOk && (len(t.Dirs.CommonLabels) > 0 || len(t.Dirs.Labels) > 0 || len(t.Dirs.CommonAnnotations) > 0 || len(t.Bases) > 0)
 	term := fmt.Sprintf("(CBuild %s %s [%s])", lt, bo.cls, strings.Join(outs, "; "))
 	r.AddCase(term, map[string]interface{}{"build": t}, nontrivial)
+}
+
+func stripFields(t *c08Tree) (*c08Tree, bool) {
+	out := &c08Tree{Own: t.Own, Dirs: t.Dirs}
+	had := false
+	out.Dirs.Labels = nil
+	for _, e := range t.Dirs.Labels {
+		if len(e.Fields) > 0 {
+			had = true
+		}
+		e.Fields = nil
+		out.Dirs.Labels = append(out.Dirs.Labels, e)
+	}
+	for _, b := range t.Bases {
+		sb, h := stripFields(b)
+		had = had || h
+		out.Bases = append(out.Bases, sb)
+	}
+	return out, had
+}
+
+// narrowerTwin: a custom field spec with the path of a default row and a strictly narrower group/version/kind.
+func narrowerTwin(ch []c08Dirs) bool {
+	for _, d := range ch {
+		for _, e := range d.Labels {
+			for _, f := range e.Fields {
+				for _, row := range c08RowPool {
+					if row.Path != f.Path {
+						continue
+					}
+					covers := (row.Group == "" || row.Group == f.Group) && (row.Version == "" || row.Version == f.Version) && (row.Kind == "" || row.Kind == f.Kind)
+					if covers && (row.Group != f.Group || row.Version != f.Version || row.Kind != f.Kind) {
+						return true
+					}
+				}
+			}
+		}
+	}
+	return false
+}
+
+// oracleFields08: custom field specs only add locations. Every label key that reaches a metadata /
+// selector / pod-template location when the `fields` of all entries are removed must also reach it
+// with them (FsSlice.MergeAll must not lose a default row).
+func oracleFields08(r *Run, t *c08Tree, flat []flatRes, bo buildOut) {
+	if bo.cls != ClsOk {
+		return
+	}
+	nf, had := stripFields(t)
+	if !had {
+		return
+	}
+	ref := runBuild(nf)
+	if ref.cls != ClsOk {
+		return
+	}
+	for _, fr := range flat {
+		a, ok1 := bo.outs[fr.Res.Name]
+		b, ok2 := ref.outs[fr.Res.Name]
+		if !ok1 || !ok2 {
+			continue
+		}
+		r.Count("oracle", "fields_only_add")
+		type rd func(*kyaml.Node) []kv
+		for name, f := range map[string]rd{"metadata.labels": func(n *kyaml.Node) []kv { return lmapOf(getAt(n, []string{"metadata", "labels"})) },
+			"selector": selOf, "pod template labels": podLabelsOf} {
+			with, without := f(a.YNode()), f(b.YNode())
+			for _, e := range without {
+				if _, ok := lookupKV(with, e.K); !ok {
+					cls := "C08/fields_only_add"
+					if narrowerTwin(fr.Chain) {
+						cls += "/default-row-shadowed-by-narrower-custom-spec"
+					}
+					r.Violation(OracleViolation{Law: "fields_only_add", Class: cls, Replay: t,
+						Detail: fmt.Sprintf("%s %s: label %q reaches %s without the custom `fields` of the labels entries but not with them (%v vs %v)",
+							fr.Res.Kind, fr.Res.Name, e.K, name, without, with)})
+				}
+			}
+		}
+	}
 }
 
 func stripDirs(t *c08Tree) *c08Tree {
@@ -1418,6 +1589,7 @@ func replayC08(path string) (bool, string, error) {
 	flat := flatten(t, &lid)
 	bo := runBuild(t)
 	oracles08(r, t, flat, bo)
+	oracleFields08(r, t, flat, bo)
 	var b strings.Builder
 	fmt.Fprintf(&b, "class=%s msg=%q\n", bo.cls, bo.msg)
 	for _, fr := range flat {
